@@ -16,12 +16,15 @@ import vlib
 
 ENV = {"ASAN_OPTIONS": "detect_leaks=0:abort_on_error=0", "UBSAN_OPTIONS": "print_stacktrace=1"}
 MSEL = list(range(23))
-FLAGS = []   # no repair is pending: everything proposed up to C15-14 is in the frozen tree
+FLAGS = ["xcache", "bfrag"]   # C15-19 (alias list invalidation), C15-20 (Barth-style alias fragment): decided by probing the tree with the witnesses
 
 # ---------------------------------------------------------------- witnesses
 # one per repair flag; the implementation's output on the witness must equal
 # the model's with the flag off (defect present) or on (repaired)
-WITNESS = {}
+WITNESS = {
+    "xcache": ["A 0 - p 15 0 0 - - 1", "L - al p/m 0", "Q - 22 0", "A 1 p m 15 0 0 - - 2", "Q - 22 0", "D p/m 0", "Q - 22 0"],
+    "bfrag": ["A 0 - p 15 0 0 - - 1", "A 0 - x 15 0 0 - - 2", "L - p/al x 1"],
+}
 # regression witnesses for the defects repaired in /repo (fix: commits d815d97 .. 71a6c5d, fb2ee00):
 # run like every other sequence; they must now agree with the model and satisfy the property text
 FIXED_WITNESS = {
@@ -285,7 +288,7 @@ SUB = ["x", "y", "xx", "a", "aa", "z9"]
 TYPES = [0, 1, 2, 3, 4, 5, 7, 8, 9, 10, 11, 12, 13, 14, 15, 15, 15, 16, 16, 17, 17, 18]
 
 
-def gen_sequence(rng, n, alias_loops):
+def gen_sequence(rng, n, alias_loops, madd_any_frag=False):
     live = ["INDEX"]
     parents = []
     ops = []
@@ -364,7 +367,7 @@ def gen_sequence(rng, n, alias_loops):
             elif r2 < 0.55:
                 spec = 1; ty = 15
             frag = rng.choice([0, 0, 1, 1, 2]) if rng.random() < 0.1 else rng.choice([0, 1])
-            if parent != "-" and frag > 1:
+            if parent != "-" and frag > 1 and not madd_any_frag:
                 frag = 1    # see DIRECT["crash/madd-fragment-index"]: out-of-range index + parent reads past D->fragment[]
             hid = 1 if rng.random() < 0.15 and not spec else 0
             nin = {1: rng.choice([1, 2, 3]), 2: 1, 3: 1, 4: 2, 5: 1, 7: 1, 8: 1, 9: 2, 10: 1, 11: 2, 12: 2, 13: 2, 14: 2}.get(ty, 0)
@@ -526,12 +529,17 @@ def main():
     chk.notes.append("detected configuration: " + json.dumps(cfgnote))
     chk.cov["config_bits"] = bits
 
+    # does gd_madd*() still read D->fragment[entry->fragment_index]?  (C15-17)
+    prc, pout = run_impl(["A 0 - r2 17 1 0 - - 71", "A 0 r2 xx 2 2 1 INDEX - 23"])
+    madd_frag_safe = (prc == 0)
+    chk.notes.append("gd_madd fragment index: " + ("ignored (C15-17 present)" if madd_frag_safe else "out-of-bounds read (as listed)"))
+
     # ---- 2. generated sequences
     nseq = 160 if not chk.thorough else 2500
     seqs = []
     for i in range(nseq):
         n = rng.choice([10, 20, 30, 40, 60, 100, 200]) if i % 5 else rng.randint(10, 200)
-        ops = gen_sequence(rng, n, alias_loops=(i % 17 == 0))
+        ops = gen_sequence(rng, n, alias_loops=(i % 17 == 0), madd_any_frag=madd_frag_safe)
         if i % 4 == 0:
             # a series of affix changes (replacements of equal length change the order but not the lengths)
             for _ in range(rng.randint(1, 6)):
@@ -742,6 +750,8 @@ def main():
     if os.environ.get("C15_DEBUG"):
         for key, (desc, replay) in sorted(viol.items()):
             print("DEBUG", key, "|", desc[:200])
+            if os.path.isdir("/var/tmp/C15-x"):
+                json.dump(replay, open("/var/tmp/C15-x/viol_%s.json" % re.sub(r"[^A-Za-z0-9_.-]", "_", key), "w"), indent=1)
         for opsx, i, m, im, specbad in modelbad[:8]:
             print("DEBUG-MODEL", i, opsx[-1], "|", str(im)[:300], "|", str(m)[:300], specbad)
             open("/var/tmp/C15-x/mb%d.txt" % modelbad.index((opsx, i, m, im, specbad)), "w").write("\n".join(opsx) + "\n")
